@@ -416,6 +416,14 @@ def main(chk):
                 for inst in res['equations']:
                     dest = inst.kwargs.get('dest', inst.args[0] if inst.args else None)
                     srcs = inst.kwargs.get('sources', inst.args[1] if len(inst.args) > 1 else None)
+                    # an equation with per-source code (loop / loop_all / initialize_pair) needs a source: given an empty list it is filed as source-less and its pair
+                    # code is emitted where no source array, no s_idx and no s_* pointer is bound
+                    if isinstance(srcs, (list, tuple)) and len(srcs) == 0:
+                        pair = sorted(EI.resolved_hooks(ci, inst.cls.rel, inst.cls.node, ('loop', 'loop_all', 'initialize_pair')))
+                        if pair:
+                            ctor.setdefault((inst.cls.node.name, '%s(dest=%r, sources=[]) is built with an empty source list although it has %s: the evaluator treats it as source-less and '
+                                             'calls %s once per destination particle with nothing bound to its source arguments' % (inst.cls.node.name, dest, '/'.join(pair), pair[0])),
+                                            (describe(cfg), inst.node, inst.rel))
                     d, s = hook_requirements(ci, inst.cls, EI.HOOKS)
                     d = dict(d)
                     for nm_, site in python_hook_requirements(ci, inst.cls).items():
